@@ -345,17 +345,22 @@ class Library(object):
         if isinstance(o, list):
             if name == 'append':
                 return Builtin('list.append', lambda I, a, k, o=o:
-                               o.append(a[0]))
+                               (I.heap_write(o, 'append'), o.append(a[0]))[1])
             if name == 'extend':
                 return Builtin('list.extend', lambda I, a, k, o=o:
-                               o.extend(I.iterate(a[0])))
+                               (I.heap_write(o, 'extend'),
+                                o.extend(I.iterate(a[0])))[1])
         if isinstance(o, dict):
             if name == 'get':
                 return Builtin('dict.get', lambda I, a, k, o=o: self._dict_get(o, a))
             if name == 'items':
                 return Builtin('dict.items', lambda I, a, k, o=o: list(o.items()))
             if name == 'update':
-                return Builtin('dict.update', lambda I, a, k, o=o: o.update(a[0]))
+                return Builtin('dict.update', lambda I, a, k, o=o:
+                               (I.heap_write(o, 'update'), o.update(a[0]))[1])
+            if name == 'setdefault':
+                return Builtin('dict.setdefault', lambda I, a, k, o=o:
+                               self._dict_setdefault(I, o, a))
         if isinstance(o, SymDict):
             if name == 'get':
                 return Builtin('environ.get', lambda I, a, k, o=o:
@@ -384,6 +389,16 @@ class Library(object):
         if isinstance(o, Opaque):
             return Opaque(o.name + '.' + name)
         return M
+
+    def _dict_setdefault(self, I, d, a):
+        k = a[0]
+        if is_sym(k):
+            I.heap_write(d, 'setdefault (symbolic key)')
+            raise OutsideSubset('dict.setdefault symbolic key')
+        if k not in d:
+            I.heap_write(d, 'setdefault')
+            d[k] = a[1] if len(a) > 1 else None
+        return d[k]
 
     def _dict_get(self, d, a):
         k = a[0]
@@ -542,7 +557,17 @@ class Library(object):
     def str_replace(self, s, a, b):
         if isinstance(s, str) and isinstance(a, str) and isinstance(b, str):
             return s.replace(a, b)
-        raise OutsideSubset('str.replace symbolic')
+        ctx = self.I.ctx
+        ts, ta, tb = z3str(s), z3str(a), z3str(b)
+        r = spec.replace_all_f(ts, ta, tb)
+        ctx.used_axioms.add('str.replace: uninterpreted; identity when the '
+                            'pattern does not occur; no occurrence remains '
+                            'when the replacement does not contain it')
+        ctx.assume(z3.Implies(z3.Not(z3.Contains(ts, ta)), r == ts))
+        ctx.assume(z3.Implies(z3.And(ta != z3.StringVal(''),
+                                     z3.Not(z3.Contains(tb, ta)),
+                                     z3.Contains(ts, ta)), r != ts))
+        return Sym(r, 'str')
 
     def str_find(self, s, sub):
         return mk(z3.IndexOf(z3str(s), z3str(sub), 0))
@@ -1373,11 +1398,27 @@ class Library(object):
         from . import fsmodel
         return fsmodel.open_model(I, a, k)
 
+    def _minmax(self, I, a, k, is_min):
+        if k:
+            raise OutsideSubset('min/max with key')
+        xs = list(a) if len(a) > 1 else list(I.iterate(a[0]))
+        if not xs:
+            raise PyExc(self.make_exc('ValueError', 'empty sequence'))
+        if all(isinstance(x, int) and not isinstance(x, bool) for x in xs):
+            return min(xs) if is_min else max(xs)
+        if all(_is_int(x) for x in xs):
+            r = z3int(xs[0])
+            for x in xs[1:]:
+                y = z3int(x)
+                r = z3.If(y < r, y, r) if is_min else z3.If(y > r, y, r)
+            return mk(r)
+        raise OutsideSubset('min/max of non-integers')
+
     def bi_min(self, I, a, k):
-        raise OutsideSubset('min')
+        return self._minmax(I, a, k, True)
 
     def bi_max(self, I, a, k):
-        raise OutsideSubset('max')
+        return self._minmax(I, a, k, False)
 
     def bi_any(self, I, a, k):
         for x in I.iterate(a[0]):
